@@ -193,6 +193,13 @@ func UseSites() []UseSite {
 		{Tag: "shadow local Helper", Stmt: "func() { Helper := func() int { return 0 }; _ = Helper() }()", Kind: UKNone, TONL: true, Core: true},
 		{Tag: "shadow param Helper", Stmt: "func(Helper func() int) { _ = Helper() }(nil)", Kind: UKNone, TONL: true},
 		{Tag: "shadow field-func Reset()", Stmt: "struct{ Reset func() }{Reset: func() {}}.Reset()", Kind: UKNone, TONL: true},
+		// elided element literals: the literal itself carries no type expression
+		{Tag: "lit elided []Mock{{}}", Stmt: "_ = []{q}Mock{{}}", Kind: UKType, Type: "Mock", TONL: true, Core: true},
+		{Tag: "lit elided map[string]*Mock2{k:{}}", Stmt: `_ = map[string]*{q}Mock2{"k": {}}`, Kind: UKType, Type: "Mock2", TONL: true},
+		// the annotated method reached through embedding (promoted)
+		{Tag: "mcall promoted em.Reset()", Stmt: "em.Reset()", Kind: UKMethod, TONL: true, Core: true},
+		{Tag: "mcall promoted local struct{S}.Reset()", Stmt: "func() { type lw struct{ {q}S }; var w lw; w.Reset() }()", Kind: UKMethod, TONL: true},
+		{Tag: "mcall promoted *Emb ResetP()", Stmt: "(&em).ResetP()", Kind: UKMethod, TONL: true},
 		// function-local aliases: the same spelling "LA" denotes the annotated type in one block and the twin in another
 		{Tag: "local alias LA=Mock; var v LA", Stmt: "{ type LA = {q}Mock; var $v LA; _ = $v }", Kind: UKType, Type: "Mock", TONL: true, Core: true},
 		{Tag: "local alias LA=Plain; var v LA", Stmt: "{ type LA = {q}Plain; var $v LA; _ = $v }", Kind: UKNone, TONL: true, Core: true},
@@ -393,6 +400,9 @@ func usePreludeD(w *lineWriter, m UseMix) {
 		w.add("")
 		w.add("func (s *S2) ResetP() {}")
 		w.add("")
+		w.add("// Emb embeds S: its method set contains S's (annotated) methods by promotion.")
+		w.add("type Emb struct{ S }")
+		w.add("")
 		w.add("// S3 has its own annotated Reset (a second annotated method of the same name on another receiver).")
 		w.add("type S3 struct{ K int }")
 		w.add("")
@@ -542,7 +552,7 @@ func RenderUse(s *UseSpec) *UseRendered {
 			w.add(ind + "// an ordinary comment")
 		}
 	}
-	params := "(s " + q + "S, sp *" + q + "S, y int, s2 " + q + "S2, s3 " + q + "S3)"
+	params := "(s " + q + "S, sp *" + q + "S, y int, s2 " + q + "S2, s3 " + q + "S3, em " + q + "Emb)"
 	for bi, b := range s.Blocks {
 		w := files[b.File]
 		pre(w, "")
